@@ -189,16 +189,18 @@ def nextMem (core : CoreProg) (env : Env) : Nat → I32 :=
 structure HistMismatch where
   name : String
   step : Nat
-  /-- per cell at the failing step: (cell, rule kind, previous value, data/value, enable/set, reset) -/
-  cells : List (Nat × String × Int × Int × Int × Int) := []
+  /-- per cell at the failing step: (cell, rule kind, previous value, data/value, enable/set, reset,
+  enable/set at the previous step, reset at the previous step) -/
+  cells : List (Nat × String × Int × Int × Int × Int × Int × Int) := []
   history : List (List (String × Int))
   expected : List (Sig × Int)
   got : List (Sig × Int)
 
 def HistMismatch.toJson (m : HistMismatch) : Json :=
   Json.mkObj [("name", m.name), ("step", m.step),
-    ("cells", Json.arr (m.cells.map (fun (c, k, p, d, e, r) => Json.mkObj [("cell", c), ("kind", k), ("prev", Json.num (JsonNumber.fromInt p)),
-      ("data", Json.num (JsonNumber.fromInt d)), ("enable_or_set", Json.num (JsonNumber.fromInt e)), ("reset", Json.num (JsonNumber.fromInt r))])).toArray),
+    ("cells", Json.arr (m.cells.map (fun (c, k, p, d, e, r, pe, pr) => Json.mkObj [("cell", c), ("kind", k), ("prev", Json.num (JsonNumber.fromInt p)),
+      ("data", Json.num (JsonNumber.fromInt d)), ("enable_or_set", Json.num (JsonNumber.fromInt e)), ("reset", Json.num (JsonNumber.fromInt r)),
+      ("prev_enable_or_set", Json.num (JsonNumber.fromInt pe)), ("prev_reset", Json.num (JsonNumber.fromInt pr))])).toArray),
     ("history", Json.arr (m.history.map showMap).toArray),
     ("expected", showMap m.expected), ("got", showMap m.got)]
 
@@ -245,13 +247,14 @@ def searchHistory (core : CoreProg) (circ : Circuit) (inputs : List InputBinding
       let hist' := hist ++ [bind.map (fun (b, v) => (b.name, v.toInt))]
       let vals0 := newVals
       let av := fun a => (argVal core.nodes vals0 a).toInt
-      let cellInfo : List (Nat × String × Int × Int × Int × Int) := (List.range core.mems.size).filterMap (fun m =>
+      let pv := fun a => (argVal core.nodes prevVals a).toInt
+      let cellInfo : List (Nat × String × Int × Int × Int × Int × Int × Int) := (List.range core.mems.size).filterMap (fun m =>
         match core.mems[m]? with
         | some cell =>
           match cell.writes with
-          | [.always d] => some (m, "always", (mem m).toInt, av d, 1, 0)
-          | [.gated d e] => some (m, "gated", (mem m).toInt, av d, av e, 0)
-          | [.latch v st r p] => some (m, if p then "sr_latch" else "rs_latch", (mem m).toInt, av v, av st, av r)
+          | [.always d] => some (m, "always", (mem m).toInt, av d, 1, 0, 1, 0)
+          | [.gated d e] => some (m, "gated", (mem m).toInt, av d, av e, 0, pv e, 0)
+          | [.latch v st r p] => some (m, if p then "sr_latch" else "rs_latch", (mem m).toInt, av v, av st, av r, pv st, pv r)
           | _ => none
         | none => none)
       let compareWith (memX : Nat → I32) : List HistMismatch :=
